@@ -715,7 +715,14 @@ func c07EnumMember(size, shard, nshards int, emit func(c07Case)) {
 										if idx%nshards != shard || !c07Pick(idx, size) {
 											continue
 										}
-										emit(c07MemberCase(version, newMem, self, sPrev, tPrev, jr, sLvl, tLvl, via))
+										cs := c07MemberCase(version, newMem, self, sPrev, tPrev, jr, sLvl, tLvl, via)
+										// the three thresholds are told apart in two thirds of the cases (rotating):
+										// the rule in force must be decided by ITS threshold, the others lie 10 away
+										if p := idx / 5 % 3; p > 0 {
+											cs = c07MemberCaseWith(version, newMem, self, sPrev, tPrev, jr, sLvl, tLvl, via,
+												[]map[string]int64{nil, {"ban": 50, "kick": 40, "invite": 60}, {"ban": 40, "kick": 60, "invite": 50}}[p])
+										}
+										emit(cs)
 									}
 								}
 							}
@@ -728,6 +735,10 @@ func c07EnumMember(size, shard, nshards int, emit func(c07Case)) {
 }
 
 func c07MemberCase(version, newMem string, self bool, sPrev, tPrev, jr string, sLvl, tLvl int64, via string) c07Case {
+	return c07MemberCaseWith(version, newMem, self, sPrev, tPrev, jr, sLvl, tLvl, via, map[string]int64{"ban": 50, "kick": 50, "invite": 50})
+}
+
+func c07MemberCaseWith(version, newMem string, self bool, sPrev, tPrev, jr string, sLvl, tLvl int64, via string, thresholds map[string]int64) c07Case {
 	sender, target := c07Alice, c07Bob
 	if self {
 		target = sender
@@ -775,7 +786,7 @@ func c07MemberCase(version, newMem string, self bool, sPrev, tPrev, jr string, s
 		}
 		content = content.with("join_authorised_via_users_server", jstr(c07Carol))
 	}
-	r.PL = c07PLContent(users, map[string]int64{"ban": 50, "kick": 50, "invite": 50}, nil, nil)
+	r.PL = c07PLContent(users, thresholds, nil, nil)
 	b := c07Build(r)
 	e := raEv{Type: "m.room.member", Sender: sender, StateKey: &target, Content: content, Prev: []string{"$someprev:a.example"}}
 	if vtraits[version].Format == 2 {
